@@ -546,8 +546,10 @@ impl TimeZoneDatabase {
     #[doc(hidden)]
     pub fn __verif_set_ttl(&self, ttl: core::time::Duration) {
         let Some(inner) = self.inner.as_deref() else { return };
-        if let Kind::ZoneInfo(ref db) = *inner {
-            db.__verif_set_ttl(ttl);
+        match *inner {
+            Kind::ZoneInfo(ref db) => db.__verif_set_ttl(ttl),
+            Kind::Concatenated(ref db) => db.__verif_set_ttl(ttl),
+            _ => {}
         }
     }
 
